@@ -212,6 +212,9 @@ def literal_tensor(it, v, node, kind="tensor"):
             return nt, ()
         if isinstance(x, VConst) and isinstance(x.value, str):
             return T.sym("lit:%r" % x.value), ()
+        if isinstance(x, VUnknown) and x.kind not in ("starred", "iter"):
+            t = getattr(x, "term", None)
+            return (t if t is not None else T.sym("val:" + x.tag)), ()
         return None, None
 
     t, s = rec(v)
@@ -1157,6 +1160,9 @@ def call_bound(it, recv, name, args, kwargs, node):
         return list_method(it, recv, name, args, kwargs, node)
     if isinstance(recv, VConst) and isinstance(recv.value, str):
         s = recv.value
+        if not hasattr(it, "str_calls"):
+            it.str_calls = []
+        it.str_calls.append((name, list(args), s, it.site(node)))
         consts = [const_of(a) for a in args]
         if name in ("strip", "lower", "upper", "format", "replace", "startswith", "endswith", "split", "lstrip", "rstrip", "title") and all(o for o, _ in consts) and not kwargs:
             try:
@@ -1196,6 +1202,8 @@ def call_bound(it, recv, name, args, kwargs, node):
             return VNum("npfloat", T.sqrt(num_term(recv)))
         if name == "is_integer":
             return VUnknown("is_integer", "bool")
+        if (isinstance(recv, VNum) or isinstance(recv.value, (int, float, bool, type(None)))) and not name.startswith("__"):
+            raise RaiseEx("AttributeError", it.site(node), "'%s' object has no attribute '%s'" % (recv.kind, name), True)
     if isinstance(recv, VIter) and name == "__iter__":
         return recv
     raise Unsupported("method %s on %r" % (name, recv), node, it.site(node))
